@@ -1,0 +1,23 @@
+//go:build verif
+
+package wrgl
+
+import (
+	"io"
+
+	"github.com/go-logr/logr"
+	"github.com/spf13/cobra"
+	"github.com/wrgl/wrgl/pkg/ingest"
+	"github.com/wrgl/wrgl/pkg/objects"
+	"github.com/wrgl/wrgl/pkg/sorter"
+)
+
+// IngestTable exposes ingestTable (the helper behind `wrgl commit` and `wrgl merge --commit-csv`,
+// progress bars included) to the verification harness, so that it can be run on a store of the
+// harness's choosing.
+func IngestTable(
+	cmd *cobra.Command, db objects.Store, file io.ReadCloser, pk []string, quiet bool, logger logr.Logger,
+	sorterOpts []sorter.SorterOption, inserterOpts []ingest.InserterOption,
+) ([]byte, error) {
+	return ingestTable(cmd, db, file, pk, quiet, logger, sorterOpts, inserterOpts)
+}
